@@ -32,7 +32,23 @@ func dumpHNSW(c *Case, st comet.VerifHNSWState) {
 }
 
 func runHNSWHistory(r *rand.Rand, p hnswParams, o hnswOpts, t *Trace) *Case {
-	idx, err := comet.NewHNSWIndex(p.dim, metrics[p.metric], p.m, p.efc, p.efs)
+	// "pass 0 for default": documented defaults are M 16, efConstruction 200, efSearch 200; a parameter that
+	// equals its default is passed as 0 (or as a negative number) half of the time, so the defaulting rules of
+	// the constructor are part of what is compared with the model
+	cm, cefc, cefs := p.m, p.efc, p.efs
+	if p.m == 16 && r.Intn(2) == 0 {
+		cm = -r.Intn(2)
+	}
+	if p.efc == 200 && r.Intn(2) == 0 {
+		cefc = -r.Intn(2)
+	}
+	if p.efs == 200 && r.Intn(2) == 0 {
+		cefs = -r.Intn(2)
+	}
+	if cm != p.m || cefc != p.efc || cefs != p.efs {
+		t.Stat("hnsw.constructed_with_defaults")
+	}
+	idx, err := comet.NewHNSWIndex(p.dim, metrics[p.metric], cm, cefc, cefs)
 	if err != nil {
 		panic(err)
 	}
